@@ -10,7 +10,7 @@ import (
 )
 
 func init() {
-	Register(&PropDef{ID: "C07", Run: runC07})
+	Register(&PropDef{ID: "C07", Run: runC07, Drops: true})
 }
 
 // runC07: some sessions stop reading (and possibly resume) while the others
@@ -112,7 +112,7 @@ func runC07(c *Ctx) {
 	}
 	// every request of a session that kept reading is answered, without delay
 	for _, cl := range clients {
-		if everStalled[cl] || DroppedTo(w, cl.ID) > 0 {
+		if everStalled[cl] || LossyTo(c, w, cl.Sess) {
 			continue
 		}
 		replyAt := map[string]time.Duration{}
@@ -157,7 +157,7 @@ func runC07(c *Ctx) {
 					}
 					for _, caller := range clients {
 						for _, cr := range caller.Calls {
-							if cr.Tag == iv.Tag && (everStalled[caller] || caller.QSize < 64 || DroppedTo(w, caller.ID) > 0) {
+							if cr.Tag == iv.Tag && (everStalled[caller] || caller.QSize < 64 || LossyTo(c, w, caller.Sess)) {
 								heldYields = append(heldYields, o.T)
 							}
 						}
@@ -214,7 +214,7 @@ func runC07(c *Ctx) {
 	}
 	lossy := map[*TClient]bool{}
 	for _, cl := range clients {
-		if everStalled[cl] || DroppedTo(w, cl.ID) > 0 {
+		if everStalled[cl] || LossyTo(c, w, cl.Sess) {
 			lossy[cl] = true
 		}
 	}
